@@ -59,7 +59,7 @@ func genCase(t *rapid.T) Case {
 	if vt.Thorough() {
 		maxLen = 100
 	}
-	c := Case{Input: prog.DrawInput(t, prog.InputOpts{MaxLen: maxLen, Rich: prog.Chance(t, 75, "rich")})}
+	c := Case{Input: prog.DrawInput(t, prog.InputOpts{MaxLen: maxLen, Rich: prog.Chance(t, 75, "rich"), NonRecords: prog.Chance(t, 35, "nonrecords")})}
 	schema := prog.Summarize(c.Input.Vals)
 	p := prog.Gen(t, schema, prog.Options{LeadingFilter: true, NoFork: true, NoOver: true, NoLimit: true, MaxOps: 4, EndOrdered: 60})
 	c.Program, c.Lead, c.Meta = p.Text, p.Lead, p.Meta
@@ -394,6 +394,12 @@ func runCase(c Case) *vt.Outcome {
 		o.Label("compare:sequence")
 	} else {
 		o.Label("compare:multiset")
+	}
+	for _, v := range c.Input.Vals {
+		if zed.TypeRecordOf(v.Type()) == nil {
+			o.Label("top-level-non-record")
+			break
+		}
 	}
 	if hasNestedRecordInContainer(c.Input.Vals) {
 		o.Label("nested-record-in-container")
